@@ -46,6 +46,9 @@ func errClass(err error) string {
 type c01cmd struct {
 	cmd string
 	out string // device output for this command (lines end in NL; may hold CR, ESC sequences)
+	// cuts are offsets into out right behind a copy of the session's prompt text that stands inside
+	// an output line (not at its start): the device ends a transport read exactly there.
+	cuts []int
 }
 
 // c01op is one operation of a session, in the order the caller issues them.
@@ -84,29 +87,32 @@ func c01apiNet(a int) bool {
 }
 
 type c01case struct {
-	seed       uint64
-	api        int
-	privKnown  bool // network flavours: CurrentPriv already is the desired level (no GetPrompt before the first send)
-	chanLog    int  // 1: a channel log writer is set; 2: one whose every write fails
-	sparse     int  // > 0: every sparse-th transport read returns no bytes
-	sparseNil  bool
-	fileNoEOL  bool // from-file flavours: the last line has no newline
-	ops        []c01op
-	depth      int
-	exact      bool
-	shortDepth bool // depth bound ignores the echo line (property: > prompt + longest output line)
-	strip      bool
-	readSize   int
-	segClass   int
-	segK       int
-	wrap       int
-	nl         string
-	delayUs    int
-	pauseUs    int
-	prompt     string
-	cmds       []c01cmd
-	longest    int
-	ret        string
+	seed      uint64
+	api       int
+	privKnown bool // network flavours: CurrentPriv already is the desired level (no GetPrompt before the first send)
+	chanLog   int  // 1: a channel log writer is set; 2: one whose every write fails
+	sparse    int  // > 0: every sparse-th transport read returns no bytes
+	sparseNil bool
+	fileNoEOL bool // from-file flavours: the last line has no newline
+	// output lines may contain the session's prompt text behind other text (end of line, middle of
+	// line, followed by blanks): not a prompt, the pattern is anchored at the line start
+	promptLines bool
+	ops         []c01op
+	depth       int
+	exact       bool
+	shortDepth  bool // depth bound ignores the echo line (property: > prompt + longest output line)
+	strip       bool
+	readSize    int
+	segClass    int
+	segK        int
+	wrap        int
+	nl          string
+	delayUs     int
+	pauseUs     int
+	prompt      string
+	cmds        []c01cmd
+	longest     int
+	ret         string
 }
 
 var c01esc = []string{"\x1b[0m", "\x1b[1;32m", "\x1b[K", "\x1b[2J", "\x1b[?25h", "\x1b]0;title\x07", "\x1b[38;5;12m", "\x1b[1A"}
@@ -132,6 +138,7 @@ func genC01(seed uint64, thorough bool) c01case {
 	// escape sequences force a read size of at least 16 (a smaller one necessarily cuts them): most
 	// sessions drawn with a small read size therefore print none, so that sizes 1, 2 and 7 are used
 	noEsc := cs.readSize < 16 && r.Chance(4, 5)
+	cs.promptLines = r.Chance(2, 5)
 	cs.delayUs = []int{20, 50, 250}[r.Intn(3)]
 	if cs.readSize < 16 && cs.delayUs == 250 {
 		cs.delayUs = 50 // thousands of tiny reads, each followed by the read delay: keep the session short
@@ -168,6 +175,25 @@ func genC01(seed uint64, thorough bool) c01case {
 		}
 		var b bytes.Buffer
 		for l := r.Intn(maxLines + 1); l > 0; l-- {
+			if cs.promptLines && r.Chance(1, 4) {
+				// "sw2  Gi0/1  to r1#": the prompt text inside a line, with a read boundary behind it
+				for w := r.Range(1, 3); w > 0; w-- {
+					b.WriteString(r.Pick(c01words) + r.Pick([]string{" ", "  ", "\t "}))
+				}
+				b.WriteString(strings.TrimRight(cs.prompt, " "))
+				cut := b.Len()
+				switch r.Intn(4) {
+				case 0: // followed by blanks; the read may end among them
+					k := r.Range(1, 3)
+					b.WriteString(strings.Repeat(" ", k))
+					cut += r.Intn(k + 1)
+				case 1: // in the middle of the line
+					b.WriteString(" " + r.Pick(c01words))
+				}
+				c.cuts = append(c.cuts, cut)
+				b.WriteString(cs.nl)
+				continue
+			}
 			switch r.Intn(12) {
 			case 0: // blank line
 			case 1:
@@ -362,6 +388,33 @@ func c01check(c *ctx, cases []c01case) {
 			res.Count(fmt.Sprintf("depth:tight (longest line+2..4; echo line counted:%v)", !cs.shortDepth))
 		default:
 			res.Count("depth:longest line+2..201")
+		}
+		if cs.promptLines {
+			nl, hist := 0, false
+			seenP := false
+			for _, op := range all {
+				if op.kind == 'P' {
+					seenP = true
+				}
+				if c01isSend(op.kind) && op.kind != 'E' && len(cs.cmds[op.ci].cuts) > 0 {
+					nl += len(cs.cmds[op.ci].cuts)
+					hist = hist || seenP
+				}
+			}
+			if nl > 0 {
+				res.Count(fmt.Sprintf("prompt text inside an output line, read ends behind it (after a GetPrompt:%v, in domain:%v)", hist, dom))
+			}
+		}
+		if dom {
+			// history: which kind of operation came (anywhere) before which
+			seen := map[string]bool{}
+			for _, op := range all {
+				k := c01histKind(cs, op)
+				for e := range seen {
+					res.Count("history " + e + " before " + k)
+				}
+				seen[k] = true
+			}
 		}
 		res.Count("api:" + c01apiNames[cs.api])
 		if c01apiNet(cs.api) {
